@@ -466,6 +466,7 @@ def case_unjson(d):
 
 # =================================================================================== oracles
 _TABLE_SEQ = [0]
+_PINNED = [0]
 _POOL: List[Any] = []
 
 
@@ -505,25 +506,41 @@ def run_tables(ctx, jobs: List[Tuple[Dict[str, Any], List[Tuple[List[Tuple[str, 
         if status == "ok":
             out.append(val)
             continue
-        # pin down: each request alone
-        single = []
-        for flt, cols, fpy in reqs or [([], None, None)]:
+        if status == "skipped":
+            ctx.stats["jobs_skipped_after_hangs"] = ctx.stats.get("jobs_skipped_after_hangs", 0) + 1
+            out.append([None] * len(reqs))
+            continue
+        # pin the input down: the requests one by one, up to the first that fails alone (for the first two failing jobs)
+        single: List[Any] = [None] * len(reqs)
+        _PINNED[0] += 1
+        pinned = False
+        for k, (flt, cols, fpy) in enumerate(reqs or [([], None, None)]):
+            if _PINNED[0] > 2:
+                break
             _TABLE_SEQ[0] += 1
-            st, v = pool().call("w_run_table", (os.path.join(ctx.scratch, f"w{_TABLE_SEQ[0]}"), {k: case[k] for k in ("cols", "kinds", "files")}, [(cols, fpy)]),
+            st, v = pool().call("w_run_table", (os.path.join(ctx.scratch, f"w{_TABLE_SEQ[0]}"), {k2: case[k2] for k2 in ("cols", "kinds", "files")}, [(cols, fpy)]),
                                 job_timeout(case, 1))
             if st == "ok":
-                single.append(v[0])
+                if reqs:
+                    single[k] = v[0]
                 continue
-            single.append(None)
-            if st in ("timeout", "died"):
-                ctx.violation(f"library-{'hang' if st == 'timeout' else 'died'}:scan",
+            pinned = True
+            if st in ("timeout", "died", "skipped"):
+                ctx.violation(f"library-{'died' if st == 'died' else 'hang'}:scan",
                               f"[{src}] the library did not finish ({st} {v}) on filter {sqlref.filter_py(flt)!r} columns={cols}",
                               case_json(case, flt, cols, {"verdict": "library-" + st, "detail": repr(v)}))
             else:
                 ctx.proof_problems.append(f"case could not be run [{src}]: {str(v)[-400:]}")
-        if all(x is not None for x in single) and reqs:
-            ctx.stats["jobs_failed_only_as_a_batch"] = ctx.stats.get("jobs_failed_only_as_a_batch", 0) + 1
-        out.append(single if reqs else [])
+            break
+        if not pinned:
+            if status in ("timeout", "died"):
+                flt0, cols0 = (reqs[0][0], reqs[0][1]) if reqs else ([], None)
+                ctx.violation(f"library-{'died' if status == 'died' else 'hang'}:scan",
+                              f"[{src}] the library did not finish ({status} {val}) on a table with {len(reqs)} filters; first: {sqlref.filter_py(flt0)!r}",
+                              case_json(case, flt0, cols0, {"verdict": "library-" + status, "detail": repr(val), "note": "not pinned to one filter"}))
+            else:
+                ctx.proof_problems.append(f"case could not be run [{src}]: {str(val)[-400:]}")
+        out.append(single)
     ctx.stats["worker_pool"] = {"children": len(pool().children), "restarts": pool().restarts, "timeouts": pool().timeouts,
                                 "slowest_job_s": round(pool().slowest, 1)}
     return out
@@ -830,7 +847,7 @@ def oracle_e2e(ctx) -> None:
             if columns is not None:
                 stats["projected"] += 1
     total = judge_all(ctx, jobs, results, "e2e")
-    if jobs and results and results[0]:
+    if jobs and results and results[0] and results[0][0] is not None:
         case, reqs, _ = jobs[0]
         ctx.sample({"e2e_case": case_json(case, reqs[0][0], reqs[0][1]), "outcome": {k: (v[1] if v[0] == "raises" else len(v[1])) for k, v in list(results[0][0].items())[:3]}})
     ctx.stats["e2e_filters"] = total
@@ -1304,6 +1321,8 @@ def corr_pipelines(ctx) -> None:
             for t, (case, reqs) in enumerate(gen)]
     ran = pool().map(jobs)
     for (case, reqs), (status, val) in zip(gen, ran):
+        if status == "skipped":
+            continue
         if status != "ok":
             if status in ("timeout", "died"):
                 ctx.violation(f"library-{'hang' if status == 'timeout' else 'died'}:scan",
